@@ -5,7 +5,7 @@ import os
 from common import Inconclusive, finish, log
 from codec_common import iter_events, judge_traces, require, selftest_corruption, tlc_cases, write_shards
 
-KINDS = ["tx", "txs", "header", "block", "group", "member"]
+KINDS = ["tx", "txs", "header", "block", "group", "member", "pbblock", "pbgroup"]
 
 
 def gen_cfg(quick):
